@@ -129,6 +129,24 @@ theorem C09_code_preserves (sort : List E → List E) (hsort : ∀ l x, x ∈ so
 example : (GenLevel.discardStale id 2
     [⟨⟨[97], 3⟩, [1], false, 3⟩, ⟨⟨[97], 2⟩, [], true, 2⟩, ⟨⟨[97], 1⟩, [5], false, 1⟩]).map (fun e => e.key.ts) = [3, 2] := by decide
 
+
+/-- the Go code itself (`levelManager.compactLN`, translated on every run): the tables of level N+1 (older data) are read and
+    merged first, the table of level N last (later list wins in `MergeVersions`); the output is named `maxLevelIdx + 1` while
+    all inputs are still in the index (the name is fresh, `C03_code_fresh_table_name`), and the inputs leave the index and
+    the directory only around / after the write of the output -/
+theorem C09_code_compaction_order (needLevel : Bool) (lnT : Nat) (ln1 : List Nat) (newIdx : Nat) :
+    GenLevel.compactLN needLevel lnT ln1 newIdx false [] =
+      some (ln1 ++ [lnT],
+        (if needLevel then [("new level", 0)] else []) ++ (ln1.map fun e => ("fetch LN+1", e)) ++
+        [("fetch LN", lnT), ("MergeVersions", ln1.length + 1), ("discardStaleEntries", 0), ("filter.Build", 0), ("table.Build", 0),
+         ("name := maxLevelIdx(LN+1)+1", newIdx), ("PushBack LN+1", newIdx), ("Remove handle LN", lnT)] ++
+        (ln1.map fun e => ("Remove handle LN+1", e)) ++ [("writeTable LN+1", newIdx), ("os.Remove LN", lnT)] ++
+        (ln1.map fun e => ("os.Remove LN+1", e))) ∧
+    GenLevel.compactLN needLevel lnT ln1 newIdx true [] = none := by
+  constructor
+  · rw [LevelTie.compactLN_table]; rfl
+  · rw [LevelTie.compactLN_table]; rfl
+
 #print axioms C09_preserves
 #print axioms C09_only_shadowed
 #print axioms C09_no_invention
@@ -137,4 +155,5 @@ example : (GenLevel.discardStale id 2
 #print axioms C09_kway_heap_merge
 #print axioms C09_code_discard_allowed
 #print axioms C09_code_preserves
+#print axioms C09_code_compaction_order
 end Props
